@@ -104,6 +104,25 @@ func c11DownstreamCases(rnd *rand.Rand, thorough bool) []hostileCase {
 		}
 		add("random-mutation", v, false)
 	}
+	// arity sweep: every command the proxy knows (and a few it does not) with 0..7 arguments, pipelined on one connection
+	simpleCmds, sumCmds, _, _ := sredis.VerifCommandTables()
+	names := append(append([]string{}, simpleCmds...), sumCmds...)
+	names = append(names, "mget", "mset", "msetnx", "eval", "evalsha", "scan", "ping", "quit", "auth", "select", "info", "time", "hotkey", "cluster", "command", "echo", "asking", "readonly", "multi", "exec", "subscribe")
+	for _, name := range names {
+		var b []byte
+		for argc := 0; argc <= 7; argc++ {
+			args := []string{name}
+			for i := 0; i < argc; i++ {
+				if i%2 == 0 {
+					args = append(args, fmt.Sprintf("{c11a}k%d", i/2))
+				} else {
+					args = append(args, strconv.Itoa(i))
+				}
+			}
+			b = append(b, resp.CmdS(args...)...)
+		}
+		add("arity-sweep:"+name, b, true)
+	}
 	// shapes
 	add("array-of-arrays", []byte("*2\r\n*1\r\n$3\r\nGET\r\n*1\r\n$1\r\nk\r\n"), true)
 	add("non-bulk-elements", []byte("*3\r\n:1\r\n+OK\r\n-ERR\r\n"), true)
